@@ -22,6 +22,7 @@ func Spec() *run.Spec {
 			"(K = every core material field, every texture field in each texture slot, presence/value/texture of every material extension) next to the base pointer twice, a copy of the base and a copy of the variant. " +
 			"Phase index-width: meshes of 65 534…70 000 vertices whose index list touches the last vertex. " +
 			"Phase fault-sequences: histories of 3–8 exports in one goroutine mixing scenes the writer must reject after an earlier model already wrote geometry (nil mesh, alphaCutoff without MASK in 3 forms, non-finite min/max refused by encoding/json), valid scenes written to failing / short-writing io.Writers at a seeded byte budget, and valid exports that must pass the full oracle whatever happened before; non-trivial = some fault followed by a checked valid export with ≥ 2 accessors. " +
+			"Phase writer-reuse: one gltf.Writer (NewWriterFromScene, or NewWriter + AddScene) emits the same scene 2–3 times through its public emit methods in each of the 12 orders over {WriteGLB, ToGLTF(base64)+json}; every output passes the full oracle and equals the one-shot WriteBinary / WriteText export of the scene (JSON tree with extensionsUsed/Required as sets, and payload bytes). " +
 			"Phase large-payload: point-cloud scenes composed to hit an exact buffer size (1 MiB −2/0/+2/+4, between 1 and 2 MiB, 2 MiB +2, above 2 MiB, above 3 MiB), text and binary container, base64 decoded strictly. " +
 			"Non-trivial = at least 2 written models that share a mesh, material or texture pointer (or value-equal copy) and at least 2 accessors in the output; " +
 			"distinct = distinct structural descriptor (model count, topologies, attribute sets, index widths, sharing kinds, variant kinds, TRS/instancing/light/extension mix).",
@@ -43,6 +44,23 @@ func Spec() *run.Spec {
 			"models_matched":                       2000,
 			"nonfinite_scenes_written_and_checked": 100,
 			"nonfinite_kinds":                      8,
+			"large_payload_classes_text":           6,
+			"large_payload_classes_glb":            6,
+			"fault_kinds":                          16,
+			"valid_exports_checked_after_a_fault":  300,
+			"emit_orders":                          12,
+			"emit_order glb>glb":                   10,
+			"emit_order glb>text":                  10,
+			"emit_order text>glb":                  10,
+			"emit_order text>text":                 10,
+			"emit_order glb>glb>glb":               10,
+			"emit_order glb>glb>text":              10,
+			"emit_order glb>text>glb":              10,
+			"emit_order glb>text>text":             10,
+			"emit_order text>glb>glb":              10,
+			"emit_order text>glb>text":             10,
+			"emit_order text>text>glb":             10,
+			"emit_order text>text>text":            10,
 		},
 		Phases: []run.Phase{
 			{Name: "scenes", Cases: func(t string) int {
@@ -63,6 +81,12 @@ func Spec() *run.Spec {
 				}
 				return 500
 			}, Run: faultSeqCase, Batch: 50, CPUBudgetS: 60},
+			{Name: "writer-reuse", Cases: func(t string) int {
+				if t == "thorough" {
+					return 500 * len(emitOrders)
+				}
+				return 30 * len(emitOrders)
+			}, Run: writerReuseCase, Batch: 60, CPUBudgetS: 60},
 			{Name: "large-payload", Cases: func(t string) int {
 				if t == "thorough" {
 					return 80
@@ -236,13 +260,20 @@ func exportAndCheck(c *run.Ctx, res *run.Result, si *sceneInfo, cont, ctxNote st
 		ck.viol("unexpected-write-error", site, "well-formed scene rejected: %v", err)
 		return -1, 0
 	}
+	d := checkBytes(res, si, cont, ctxNote, buf.Bytes())
+	return len(d.arr("accessors")), buf.Len()
+}
+
+// checkBytes runs the full structural + content oracle on one emitted document.
+func checkBytes(res *run.Result, si *sceneInfo, cont, ctxNote string, data []byte) *Doc {
+	ck := &checker{si: si, res: res, cont: cont, note: ctxNote}
 	res.SetAdd("containers", cont)
-	res.Count("bytes_"+cont, int64(buf.Len()))
+	res.Count("bytes_"+cont, int64(len(data)))
 	var d *Doc
 	if cont == "text" {
-		d = ParseText(buf.Bytes())
+		d = ParseText(data)
 	} else {
-		d = ParseGLB(buf.Bytes())
+		d = ParseGLB(data)
 	}
 	d.Check()
 	ck.d = d
@@ -272,7 +303,7 @@ func exportAndCheck(c *run.Ctx, res *run.Result, si *sceneInfo, cont, ctxNote st
 		}
 	}
 	ck.content()
-	return len(d.arr("accessors")), buf.Len()
+	return d
 }
 
 // payloadClass names the size class of a buffer payload relative to the 1 MiB / 2 MiB marks.
